@@ -580,7 +580,7 @@ Section RQ.
   Proof.
     intros H. unfold settle_pending. destruct (c_fix_moveout C); [|exact H].
     destruct (pend r) as [[c p]|]; [|exact H].
-    destruct (is_moved_to (k_mask e) && N.eqb (k_cookie e) c); [exact H|]. apply forget_tree_junk. exact H.
+    destruct (is_moved_to (k_mask e) && N.eqb (k_cookie e) c && amem N.eqb (k_wd e) (pfw r)); [exact H|]. apply forget_tree_junk. exact H.
   Qed.
 
   Lemma ro_move_queue t r k e wdp : k_queue (snd (fst (ro_move C t r k e wdp))) = k_queue k.
